@@ -176,6 +176,14 @@ func Run(sc Scenario) *Result {
 				out = "err"
 			}
 		}()
+		// the publisher goes on using its own message objects once Publish has returned: deliveries (live, redelivered
+		// after a Nack, replayed) must come from the copies Publish took, so none of this may ever be seen by a consumer
+		// (Message.Copy shares the payload's backing array, hence the field is replaced, not written through)
+		for _, m := range msgs {
+			m.Payload = []byte("edited-after-publish")
+			m.Metadata.Set("k", "edited-after-publish")
+			m.Metadata.Set("late", "1")
+		}
 		rec.Log("pr", itoa(pid), out)
 	}
 
